@@ -12,6 +12,7 @@ EXPLANATION = (
     "(`--` seen / trailing_var_arg). R5.3 tail values are pushed verbatim (to_value_os().to_owned(), no lossy conversion) "
     "and R5.4 the dont_delimit_trailing_values exemption in react covers every value index at or after trailing_idx (a "
     "threshold comparison, not equality with one index); R5.5 values injected for an empty occurrence (default_missing_vals) are not treated as trailing (trailing_idx reset before the injection). R5.6 positional counter after the escape: the counter jumps to the last positional only on the trailing_values edge; the allow_missing_positional look-ahead (`missing_pos`) is disabled once trailing_values holds; every rejection of a token in Parser::parse as an unknown argument sits on the !trailing_values edge (tail tokens are never `unknown`, in particular a `last` positional accepts them). `contains_last` is existential over all arguments (any(get_arguments|get_positionals, is_last_set)), not a property of one particular positional. R5.7 the trailing index is first-wins: ArgMatcher::pending_values_mut records trailing_idx only if none is recorded yet (Option::get_or_insert / a write guarded by is_none) with the current number of pending values, on the trailing_values edge — it marks where the tail STARTS. R5.8 dont_delimit_trailing_values is a global setting and _propagate_subcommand hands global settings down at every depth. R5.9 the only thing that can make `--` a value is allow_hyphen_values of the pending argument. NOT decided: the rest of the positional-counter arithmetic, byte equality for all tails."
+    " R5.A accessor layer (lib/accessors.py): for the is_*_set / get_* accessors this property's rules name — the bool builder sets and unsets one flag on the right edges and the predicate reads that same flag; builder scope (global/local) as in audit/setting_scope.tsv; no two predicates/builders share a flag; setting/unset_setting/global_setting/is_set forward to the right flag word, the flag word is |=bit / &=!bit / &bit!=0 with bit = 1<<discriminant, _propagate_subcommand hands g_settings to the child's settings and g_settings; plain field getters return their field."
 )
 TRUSTED = ["rustc MIR", "clapfacts", "edge-dominance on the MIR CFG"]
 ASSUMPTIONS = ["PendingArg::trailing_idx is handed unchanged to react by resolve_pending (checked: C02/C06 react call-site census)"]
